@@ -217,10 +217,43 @@ def _mapper_config(run, P):
         if not ctor_calls:
             raise AnalysisError(f"{fn.fq}: no dependency mapper constructor call")
         for c in ctor_calls:
+            klass = P.resolve_expr(fn, c.func)
+
+            def class_default(name):
+                """The default a constructor of the repository gives the option, when
+                it hands it on to the library's constructor under the same name."""
+                if klass is None or not hasattr(klass, "methods"):
+                    return None
+                for k_ in P.mro(klass):
+                    init = getattr(k_, "methods", {}).get("__init__")
+                    if init is None:
+                        continue
+                    a_ = init.node.args
+                    names = [x.arg for x in a_.args]
+                    if name not in names:
+                        if a_.kwarg is None:
+                            return None
+                        continue
+                    dflts = dict(zip(reversed(names), reversed(a_.defaults)))
+                    d_ = dflts.get(name)
+                    if not k_.module.name.startswith("dagrt"):
+                        return d_
+                    forwards = any(
+                        isinstance(x, ast.Call) and (dotted(x.func) or "").endswith("__init__")
+                        and any(kw.arg == name and dotted(kw.value) == name for kw in x.keywords)
+                        for x in ast.walk(init.node))
+                    if not forwards:
+                        raise AnalysisError(f"{k_.name}.__init__: what becomes of '{name}' is not "
+                                            f"recognised")
+                    return d_
+                return None
+
             def get(name):
                 v = kwarg(c, name)
                 if v is None and any(k.arg is None for k in c.keywords):
                     v = args_dict.get(name)
+                if v is None:
+                    v = class_default(name)
                 return v
             sub = get("include_subscripts")
             ok = isinstance(sub, ast.Constant) and sub.value is False
